@@ -1371,6 +1371,24 @@ fire("c19-unpack-batch-shape-from-count", "C19", TENSOR,
 fire("c19-materialize-skips-after-first", "C19", TENSOR,
      "                subs.append((name, self.new_arange(name, domain.dtype)))\n", "                subs.append((name, self.new_arange(name, domain.dtype)))\n                break\n", "R19.4", "Tensor.materialize")
 
+# ---- C09 (claimed since round 8)
+SUMPROD = "funsor/sum_product.py"
+fire("c09-ordinal-of-variable-is-a-union", "C09", SUMPROD,
+     "    for f in factors:\n        ordinal = plates.intersection(f.inputs)\n        ordinal_to_factors[ordinal].append(f)\n        for var in sum_vars.intersection(f.inputs):\n            var_to_ordinal[var] = var_to_ordinal.get(var, ordinal) & ordinal\n\n    ordinal_to_vars = defaultdict(set)\n    for var, ordinal in var_to_ordinal.items():\n        ordinal_to_vars[ordinal].add(var)\n\n    results = []\n",
+     "    for f in factors:\n        ordinal = plates.intersection(f.inputs)\n        ordinal_to_factors[ordinal].append(f)\n        for var in sum_vars.intersection(f.inputs):\n            var_to_ordinal[var] = var_to_ordinal.get(var, ordinal) | ordinal\n\n    ordinal_to_vars = defaultdict(set)\n    for var, ordinal in var_to_ordinal.items():\n        ordinal_to_vars[ordinal].add(var)\n\n    results = []\n",
+     "R09.1", "partial_sum_product")
+fire("c09-shallowest-ordinal-first", "C09", SUMPROD, "        leaf = max(ordinal_to_factors, key=len)  # CHOICE\n", "        leaf = min(ordinal_to_factors, key=len)  # CHOICE\n", "R09.2", "partial_sum_product")
+silent("c09-s-leaf-from-keys-view", "C09", SUMPROD, "        leaf = max(ordinal_to_factors, key=len)  # CHOICE\n", "        leaf = max(ordinal_to_factors.keys(), key=len)  # CHOICE\n")
+fire("c09-requeued-factor-reduced-over-whole-leaf", "C09", SUMPROD,
+     "                reduced_plates = leaf - new_plates\n", "                reduced_plates = leaf & eliminate\n", "R09.3", "partial_sum_product")
+fire("c09-final-scale-skipped", "C09", SUMPROD,
+     "                f = f.reduce(prod_op, leaf & eliminate)\n                if plate_to_scale:\n                    f_scales = [\n                        plate_to_scale[plate]\n                        for plate in leaf & eliminate\n                        if plate in plate_to_scale\n                    ]\n                    if f_scales:\n                        scale = reduce(ops.mul, f_scales)\n                        f = pow_op(f, scale)\n                results.append(f)\n",
+     "                f = f.reduce(prod_op, leaf & eliminate)\n                results.append(f)\n", "R09.4", "partial_sum_product")
+fire("c09-scale-of-all-leaf-plates-on-requeue", "C09", SUMPROD,
+     "                        plate_to_scale[plate]\n                        for plate in reduced_plates\n", "                        plate_to_scale[plate]\n                        for plate in leaf\n", "R09.4", "partial_sum_product")
+fire("c09-sum-product-folds-from-first-factor", "C09", SUMPROD,
+     "    return reduce(prod_op, factors, Number(UNITS[prod_op]))\n", "    return reduce(prod_op, factors)\n", "R09.5", "sum_product")
+
 # ===== derived variants: must stay at the END of this file (they enumerate every rename() variant above) =====
 # `if c: A else: B` -> `if not c: B else: A` in the anchor functions (behaviour-preserving)
 def invert(prop, file, qual):
@@ -1393,7 +1411,7 @@ for _v in list(V):
         invert(_v["prop"], _v["transform"][1], _v["transform"][2])
 
 # every local of every top-level function / method of the whole package renamed at once
-for _p in ("C01", "C02", "C03", "C04", "C05", "C06", "C07", "C08", "C11", "C15", "C16", "C17", "C18", "C20"):
+for _p in ("C01", "C02", "C03", "C04", "C05", "C06", "C07", "C08", "C09", "C11", "C15", "C16", "C17", "C18", "C19", "C20"):
     V.append(dict(id=f"{_p.lower()}-s-rename-all-locals", prop=_p, kind="silent", transform=("rename_all_locals", "", "")))
     for _t in ("invert_all_ifs", "all_returns_via_temp", "all_else_after_return"):
         V.append(dict(id=f"{_p.lower()}-s-{_t.replace('_', '-')}", prop=_p, kind="silent", transform=(_t, "", "")))
